@@ -10,7 +10,7 @@ PROP = dict(
     level="proof",
     exhaustive=False,
     rule="one evaluation = one step of a random operation history (<= 30 ops; add/update/remove/flush/reopen/close+open; "
-         "4 keys related by prefix x 5 phrases) on the real TrieBuf (in-memory, file-backed with the snapshot writer waited "
+         "4 keys related by prefix — 0, 1, 2 or 3 syllables — x 5 phrases) on the real TrieBuf (in-memory, file-backed with the snapshot writer waited "
          "for), Trie, Layered (user layer in-memory or file-backed, every call made through Layered) or SqliteDictionary: "
          "the model replays the whole history and must reproduce the result of the step, the lookups (n in {0,1,2,MAX}, both "
          "strategies, and the provided trait methods lookup_first_phrase / lookup_all_phrases) and the enumeration, in order; "
